@@ -20,7 +20,9 @@ RULE = ("[ordinary streams] structures: periodic cells (orthorhombic, triclinic 
         "atom 6–11·atol off the axis, distances within 0.7·atol) that is not an occurrence; ~7 % of the replacement patterns have whole-number coordinates and are CONSTRUCTED from "
         "plain ints (first search atom at a non-integer place); every 15th structure is a STAR: 3–4 occurrences of a two-atom "
         "pattern sharing their first atom, partners numbered in random order, only a fraction of them replaced; ~30 % of the calls pass axis hints axisp1/axisp2 (half of those also an orientation point), "
-        "spelled as plain, negative or numpy integers; 2 in 7 cells are spelled with two rows exchanged (left-handed) or one row negated, atoms wrapped into the cell as spelled) given in a shifted frame (first atom not at the origin); replacement patterns derived from them "
+        "spelled as plain, negative or numpy integers; 2 in 7 cells are spelled with two rows exchanged (left-handed) or one row negated, atoms wrapped into the cell as spelled; in 20 % of the structures the atoms are GIVEN outside the unit cell, "
+        "each atom shifted on its own by up to ±2 cells per direction; every 15th case has cell, structure and patterns typed "
+        "and constructed with plain ints) given in a shifted frame (first atom not at the origin); replacement patterns derived from them "
         "(all search atoms kept + atoms sticking 3–9 Å out, some kept + new, all new incl. one exactly on the first "
         "search atom, one element substituted, one atom re-placed 0.02–0.09 Å away with the same element, atoms on the pattern axis), every replacement atom tagged by a unique "
         "charge; replace_all on/off; each case is run a second time with search and replacement pattern moved jointly "
@@ -92,8 +94,9 @@ def independent_find(case, scale=1.0):
     (sorted atom index sets)"""
     import random as _random
     import mofun.mofun as mm
-    s = core.atoms_from_json(case["s"])
-    p = core.atoms_from_json(case["p"])
+    with int_constructed([case["s"], case["p"]] if case.get("int_typed") else []):
+        s = core.atoms_from_json(case["s"])
+        p = core.atoms_from_json(case["p"])
     _random.seed(case["seed"])
     np.random.seed(case["seed"] % (2 ** 32))
     with core.quiet():
@@ -245,6 +248,10 @@ def oracle_joint(case, out, out2, motion):
         ps = positions(res)
         return [(el[i], ps[i]) for i, a in enumerate(res["atoms"]) if fl(a["q"]) not in drop]
     tol = 1e-6
+    if case["info"].get("flip"):
+        # copy axis (anti)parallel to the pattern axis up to eps: the angle comes from arccos near ±1, whose error is about
+        # sqrt(machine epsilon) ≈ 1.5e-8 rad; times the lever arm of a far replacement atom this exceeds 1e-6 but not 2e-5
+        tol = 2e-5
     if any(v is not None for v in (case.get("hints") or [])):
         # with caller-chosen axis points the remaining choices (second axis point, orientation point) can be TIES that
         # rounding breaks differently for the moved pattern; the two frames then differ by the copy's own deviation from
@@ -406,20 +413,40 @@ def tie(ctx, inp, op, out, model):
 
 # ------------------------------------------------------------------ running
 
+def all_integer(j):
+    vals = [v for r in j["atoms"] for v in r["pos"]] + [v for row in (j.get("cell") or []) for v in row]
+    return all(Fraction(v).denominator == 1 for v in vals)
+
+
 def atoms_with_int_positions(j):
-    """a term-free pattern built the way a user types it: coordinates as plain Python ints"""
+    """a term-free structure / pattern built the way a user types it: coordinates (and cell rows) as plain Python ints"""
     from mofun import Atoms
     rows = j["atoms"]
     ty = j["types"]
-    ints = []
-    for r in rows:
-        f = [Fraction(v) for v in r["pos"]]
-        assert all(x.denominator == 1 for x in f)
-        ints.append(tuple(int(x) for x in f))
+    ints = [tuple(int(Fraction(v)) for v in r["pos"]) for r in rows]
+    kw = {}
+    if j.get("cell") is not None:
+        kw["cell"] = [[int(Fraction(v)) for v in row] for row in j["cell"]]
     with core.quiet():
         return Atoms(atom_types=[r["ty"] for r in rows], positions=ints, charges=[float(Fraction(r["q"])) for r in rows],
                      groups=[r["g"] for r in rows], atom_type_elements=list(ty["elem"]), atom_type_labels=list(ty["label"]),
-                     atom_type_masses=[float(Fraction(m)) for m in ty["mass"]])
+                     atom_type_masses=[float(Fraction(m)) for m in ty["mass"]], **kw)
+
+
+import contextlib
+
+
+@contextlib.contextmanager
+def int_constructed(jsons):
+    """while active, the listed canonical-JSON objects (those with whole-number coordinates and no terms) are built from
+    plain ints instead of floats by everything that goes through core.atoms_from_json"""
+    real = core.atoms_from_json
+    chosen = [j for j in jsons if all_integer(j) and not any(j["terms"][k] for k in j["terms"])]
+    core.atoms_from_json = lambda j: atoms_with_int_positions(j) if any(j is c for c in chosen) else real(j)
+    try:
+        yield
+    finally:
+        core.atoms_from_json = real
 
 
 def spelled_hints(case):
@@ -438,17 +465,17 @@ def run_real(case, motion=None):
     pj, rj = case["p"], case["r"]
     if motion is not None:
         pj, rj = G.move_pattern_json(pj, motion), G.move_pattern_json(rj, motion)
-    real_from_json = core.atoms_from_json
+    ints = []
     if case.get("int_rp") and motion is None:
-        # the replacement pattern enters through the constructor with integer-typed coordinates
-        core.atoms_from_json = lambda j: atoms_with_int_positions(j) if j is rj else real_from_json(j)
+        ints.append(rj)                      # the replacement pattern enters through the constructor with integer-typed coordinates
+    if case.get("int_typed"):
+        ints += [case["s"]] + ([pj] if motion is None else [])
     try:
-        return findlib.run_replace(case["s"], pj, rj, atol=case["atol"], replace_all=case["replace_all"], seed=case["seed"],
-                                   fraction=case.get("fraction", 1.0), hints=spelled_hints(case))
+        with int_constructed(ints):
+            return findlib.run_replace(case["s"], pj, rj, atol=case["atol"], replace_all=case["replace_all"], seed=case["seed"],
+                                       fraction=case.get("fraction", 1.0), hints=spelled_hints(case))
     except (ValueError, OverflowError) as e:      # the result cannot be canonicalised: NaN / inf coordinates
         return {"err": "error:non-finite-result (%s)" % (str(e)[:60],), "used": None, "inputs_unchanged": True}
-    finally:
-        core.atoms_from_json = real_from_json
 
 
 def check_case(ctx, case, with_joint=True):
@@ -467,6 +494,7 @@ def check_case(ctx, case, with_joint=True):
     ctx.count("star:%s" % bool(info.get("star")))
     ctx.count("cell-spelling:%s" % (info.get("cellvar") or "standard"))
     ctx.count("unwrapped:%s" % bool(info.get("unwrapped")))
+    ctx.count("int-typed-structure+pattern+cell:%s" % bool(case.get("int_typed")))
     ctx.count("hint-spelling:%s" % case.get("hint_spelling", "plain"))
     ctx.count("opoint-hint:%s" % ((case.get("hints") or [None] * 3)[2] is not None))
     ctx.count("flip:%s" % (str(info.get("flip")).split("(")[0]))
@@ -519,6 +547,8 @@ def stratified(ctx, count):
             out[-1]["fraction"] = rng.choice([0.5, 0.75, 0.34, 0.6])
         if i % 15 == 7 and len(out) < count:
             out.append(G.make_star_case(rng, ctx.tier))     # occurrences sharing their first atom, part of them replaced
+        if i % 15 == 11 and len(out) < count:
+            out.append(G.make_int_case(rng, ctx.tier))      # cell, structure and patterns typed with whole numbers
         i += 1
     return out
 
